@@ -147,10 +147,26 @@ impl Node {
         if t != "direct" {
             nundb::verif::set_global_data_dir(Some(self.dir.clone()));
         }
-        match t {
-            "tcp" => self.port = crate::net::start_tcp(self.dbs.clone()),
-            "ws" => self.port = crate::net::start_ws(self.dbs.clone()),
-            _ => {}
+        if t == "tcp" || t == "ws" {
+            // the server is up when a connection to its port is accepted (the WebSocket server allocates its
+            // connection table first, which takes seconds on a loaded machine); a port that somebody else took
+            // between choosing it and binding it is given up for another one.  A server that cannot be started is a
+            // failure of the harness, never a verdict.
+            for attempt in 0..4 {
+                self.port = if t == "tcp" { crate::net::start_tcp(self.dbs.clone()) } else { crate::net::start_ws(self.dbs.clone()) };
+                let deadline = std::time::Instant::now() + std::time::Duration::from_secs(20);
+                while std::time::Instant::now() < deadline {
+                    if std::net::TcpStream::connect(("127.0.0.1", self.port)).is_ok() {
+                        // (the probe connection is closed at once: the server sees a client that went away)
+                        std::thread::sleep(std::time::Duration::from_millis(20));
+                        return;
+                    }
+                    std::thread::sleep(std::time::Duration::from_millis(10));
+                }
+                eprintln!("transport {} did not come up on port {} (attempt {})", t, self.port, attempt);
+            }
+            eprintln!("cannot start the {} server", t);
+            std::process::exit(3);
         }
     }
 
@@ -377,7 +393,7 @@ impl Node {
             }
             if any_ws {
                 let mut last = std::time::Instant::now();
-                let deadline = last + std::time::Duration::from_millis(3000);
+                let deadline = last + std::time::Duration::from_millis(10000);
                 while last.elapsed() < std::time::Duration::from_millis(60) && std::time::Instant::now() < deadline {
                     for (c, k) in self.conns.iter_mut() {
                         let got = k.poll(std::time::Duration::from_millis(2));
